@@ -3,7 +3,7 @@
 A violation class is "<property>:<oracle>"; a check reports the classes of its own
 property (plus every crash / sanitizer report met while running)."""
 
-ALL_CFGS = ["A", "B", "C", "D", "E", "F", "G", "H"]
+ALL_CFGS = ["A", "B", "C", "D", "E", "F", "G", "H", "J", "K"]
 QUICK3 = ["A", "B", "D"]
 
 COMPONENTS = {
@@ -26,7 +26,7 @@ CHECKS = {
         "rule": HIST_RULE,
         "budget_s": {"quick": 70, "thorough": 900},
         "batches": [
-            {"family": "hist", "mode": "free", "cfgs": {"quick": QUICK3 + ["G"], "thorough": ALL_CFGS},
+            {"family": "hist", "mode": "free", "cfgs": {"quick": QUICK3 + ["G", "E"], "thorough": ALL_CFGS},
              "runs": {"quick": 12000, "thorough": 400000}},
         ],
         "probes": ["alias.copy:self:scalar", "op.cset", "op.doc", "op.deser"],
@@ -55,11 +55,11 @@ CHECKS = {
         "classes": ["C19", "C04"],
         "rule": HIST_RULE + "; 'free' plans are executed by every configuration of the build matrix and their observable "
                 "transcripts compared pairwise; 'limit' plans first fill the document up to the slot-id limit of the build",
-        "budget_s": {"quick": 80, "thorough": 900},
+        "budget_s": {"quick": 100, "thorough": 900},
         "batches": [
-            {"family": "hist", "mode": "free", "cfgs": {"quick": ["A", "B", "D", "F", "G", "I"], "thorough": ALL_CFGS + ["I"]},
+            {"family": "hist", "mode": "free", "cfgs": {"quick": ["A", "B", "D", "F", "G", "I", "J", "K"], "thorough": ALL_CFGS + ["I"]},
              "runs": {"quick": 4000, "thorough": 60000}, "cross_config": True},
-            {"family": "hist", "mode": "limit", "cfgs": {"quick": ["B", "C", "F"], "thorough": ["B", "C", "F"]},
+            {"family": "hist", "mode": "limit", "cfgs": {"quick": ["B", "C", "F", "J", "K"], "thorough": ["B", "C", "F", "J", "K"]},
              "runs": {"quick": 1500, "thorough": 40000}},
             {"family": "hist", "mode": "limit", "cfgs": {"quick": ["D", "E", "G", "I"], "thorough": ["D", "E", "G", "I"]},
              "runs": {"quick": 48, "thorough": 900}},
@@ -162,7 +162,7 @@ CHECKS.update({
         "batches": [
             {"family": "xfer", "mode": "any", "cfgs": {"quick": ["A", "B", "C", "D", "H"], "thorough": ALL_CFGS},
              "runs": {"quick": 36000, "thorough": 600000}},
-            {"family": "xfer", "mode": "valid", "cfgs": {"quick": ["A", "B"], "thorough": ALL_CFGS},
+            {"family": "xfer", "mode": "valid", "cfgs": {"quick": ["A", "B", "K"], "thorough": ALL_CFGS},
              "runs": {"quick": 15000, "thorough": 240000}},
             {"family": "xfer", "mode": "corrupt", "cfgs": {"quick": ["A", "E"], "thorough": ALL_CFGS},
              "runs": {"quick": 1500, "thorough": 24000}},
@@ -182,7 +182,7 @@ CHECKS.update({
         "batches": [
             {"family": "xfer", "mode": "mpprefix", "cfgs": {"quick": ["A", "B", "H"], "thorough": ALL_CFGS},
              "runs": {"quick": 9000, "thorough": 160000}},
-            {"family": "xfer", "mode": "mpvalid", "cfgs": {"quick": ["A", "H"], "thorough": ALL_CFGS},
+            {"family": "xfer", "mode": "mpvalid", "cfgs": {"quick": ["A", "H", "J"], "thorough": ALL_CFGS},
              "runs": {"quick": 15000, "thorough": 240000}},
             {"family": "xfer", "mode": "mpcorrupt", "cfgs": {"quick": ["A", "D"], "thorough": ALL_CFGS},
              "runs": {"quick": 1800, "thorough": 32000}},
@@ -329,3 +329,9 @@ CHECKS["C09"]["batches"].append(
     {"family": "xfer", "mode": "mpbadkey", "cfgs": {"quick": ["A", "B"], "thorough": ALL_CFGS},
      "runs": {"quick": 300, "thorough": 6000}})
 CHECKS["C09"]["rule"] += "; plus every one of the 256 header bytes in map-key position (only string headers may be accepted) and 0xC1 at value positions"
+
+# the way to the slot limit with one allocation failing on it: every position of every pool allocation and table
+# growth in turn (single failure and fail-from), on the builds whose limit is within reach
+CHECKS["C05"]["batches"].append(
+    {"family": "hist", "mode": "limitfault", "cfgs": {"quick": ["C", "K"], "thorough": ["B", "C", "F", "J", "K"]},
+     "runs": {"quick": 24, "thorough": 1200}, "chunks": {"quick": 4, "thorough": 16}})
